@@ -289,7 +289,7 @@ func (ps *peerScore) score(p peer.ID) float64 {
 		var topicScore float64
 
 		// P1: time in Mesh
-		if tstats.inMesh {
+		if tstats.inMesh && topicParams.TimeInMeshQuantum > 0 {
 			p1 := float64(tstats.meshTime / topicParams.TimeInMeshQuantum)
 			if p1 > topicParams.TimeInMeshCap {
 				p1 = topicParams.TimeInMeshCap
